@@ -179,11 +179,17 @@ def run(ctx):
                     ok_sinks(f), require_fail_err=False)
     f = ctx.anchor(CORE + "signature::Signature::<C>::default_deserialize")
     if f:
-        refusal(ctx, f, "SEP", "G46:exact-signature-length",
-                [("len!=R+z", cmp_fact("eq", length(arg(1)), lambda t: t[0] == "bin" and t[1] == "Add", False))], ok_sinks(f))
+        # a + b with a = length of an encoded element, b = length of an encoded scalar
+        enc_len = lambda of: length(lambda t: mentions(t, lambda s: is_call(s, name="serialize") and any(mentions(x, lambda u: is_call(u, name=of)) for x in s[2])))
+        how = exact_length(P, f, ok_sinks(f), arg(1), sum_of=(enc_len("generator"), enc_len("zero")))
+        ctx.check(how is not None, "SEP", f.key, "G46:exact-signature-length",
+                  "a signature encoding must be refused unless its length is exactly |encoded element| + |encoded scalar| "
+                  "(no missing, no trailing bytes)", f.loc, {"idiom": how})
     f = ctx.anchor("<frost_secp256k1_tr::Secp256K1Sha256TR as frost_core::traits::Ciphersuite>::deserialize_signature")
     if f:
-        refusal(ctx, f, "SEP", "G47:exact-64-bytes", [("len!=64", cmp_fact("eq", length(arg(1)), const(64), False))], ok_sinks(f))
+        how = exact_length(P, f, ok_sinks(f), arg(1), const_n=64)
+        ctx.check(how is not None, "SEP", f.key, "G47:exact-64-bytes",
+                  "a Taproot signature encoding must be refused unless it is exactly 64 bytes long", f.loc, {"idiom": how})
         v = FnView.get(P, f)
         # even-R tag on decode: R_bytes[0] = 0x02
         good = any(mentions(a, lambda s: s[0] == "updated" and any(val == ("const", "u8", 2) for _, val in s[2]))
